@@ -1117,6 +1117,7 @@ func runC11(args []string) int {
 	}
 	scens := []c11Scenario{c11TieScenario(6), c11TieScenario(40), c11PosTieScenario(1), c11PosTieScenario(12),
 		c11BulkScenario(r, bulkN, false), c11BulkScenario(r, bulkN, true), c11CIScenario(r, ciN)}
+	nfixed := len(scens)
 	for len(scens) < nscen {
 		if len(scens)%6 == 5 {
 			scens = append(scens, c11CIScenario(r, 10+r.Intn(40)))
@@ -1144,9 +1145,10 @@ func runC11(args []string) int {
 		}
 		var ref *binOut
 		runs := []int{1, 4, 16, 16, 64}
+		full := race > 0 && si < nfixed // thorough: the fixed heavy scenarios get the long repetitions and the whole race matrix
 		if heavy(sc) {
 			runs = []int{1, 2, 4, 16, 64, 16, 4, 2, 64, 16}
-			if race > 0 {
+			if full {
 				runs = append(runs, 2, 4, 8, 16, 32, 64, 16, 4, 2, 16, 64, 8, 4, 2, 16)
 			}
 		}
@@ -1184,7 +1186,7 @@ func runC11(args []string) int {
 			return
 		}
 		ws, procs := []int{4, 16}, []string{""}
-		if race > 0 {
+		if full {
 			ws, procs = []int{1, 2, 4, 16, 64}, []string{"1", "4", "16"}
 		}
 		for _, w := range ws {
